@@ -1,38 +1,193 @@
 /* C13 round 3: a second compilation of igris/util/printf_impl.c that gives the harness access to what is
    `static` or a macro there: the buffer constants, the widths of the types print_f computes in, and print_f
    itself (direct calls with widths / precisions / flag words that no format string spells).  The public
-   entry is renamed so that the two copies can be linked together. */
+   entry is renamed so that the two copies can be linked together.
+
+   Round 3b (fragility sweep): the only name of the library this file may RELY on is the public entry
+   `__printf` (declared in igris/util/printf_impl.h).  Everything else it mentions is internal - the macros
+   PRINT_F_BUFF_SZ / PRINT_F_FRAC_MAX / PRINT_F_EXP_MAX / PRINT_F_PREC_DEFAULT / PRINT_I_BUFF_SZ / DOUBLE, the eight
+   OPS_ bit names, the static function print_f and its parameter list - and is OPTIONAL:
+     * a macro that does not exist (renamed, removed, turned into an enum or a static const) makes c13_const()
+       return C13_UNKNOWN; the harness then uses a behavioural probe through the public entry or a neutral default
+       and says so in a tag;
+     * print_f is declared here first WITHOUT a prototype (`static int print_f();`): if the library still defines a
+       static print_f with the parameter list below, the direct call is used; if it was renamed, removed, split or got
+       another parameter list, c13_print_f() degrades to the public entry with the directive spelled as a format
+       string (c13_have_print_f() tells the harness which one ran). */
+#include <stdarg.h>
+#include <stdio.h>
+#include <string.h>
+
+#define C13_UNKNOWN (-1000000L)
+
+/* fallback declaration without a prototype: compatible with any later `static int print_f(<prototype>)` whose
+   parameter types are their own default promotions (pointers, int, unsigned, long double: true of the list below) */
+static int print_f();
+
 #define __printf c13_twin_printf
 #include <igris/util/printf_impl.c>
 #undef __printf
+
+int c13_twin_printf(void (*h)(void *, int), void *d, const char *format, va_list args);
+
+typedef int c13_print_f_t(void (*)(void *, int), void *, long double, int, int, unsigned int, int, int, int);
+
+/* 1 iff the library defines print_f with exactly the expected parameter list.  A declaration that still has no
+   prototype (nothing in the library completed it) is "compatible" with every promotion-safe prototype, also with the
+   deliberately wrong `int(int)`; a completed one is compatible only with its own list. */
+#define C13_HAVE_PRINT_F                                                                                               \
+    (__builtin_types_compatible_p(__typeof__(print_f), c13_print_f_t) &&                                               \
+     !__builtin_types_compatible_p(__typeof__(print_f), int(int)))
+
+int c13_have_print_f(void) { return C13_HAVE_PRINT_F; }
 
 /* what the compiled code contains: compared with what the Lean model embeds by the op `consts` */
 long c13_const(int i)
 {
     switch (i)
     {
-    case 0: return PRINT_F_BUFF_SZ;
-    case 1: return PRINT_F_FRAC_MAX;
-    case 2: return PRINT_F_EXP_MAX;
-    case 3: return PRINT_F_PREC_DEFAULT;
-    case 4: return (long)sizeof(DOUBLE);
+    case 0:
+#ifdef PRINT_F_BUFF_SZ
+        return PRINT_F_BUFF_SZ;
+#else
+        return C13_UNKNOWN;
+#endif
+    case 1:
+#ifdef PRINT_F_FRAC_MAX
+        return PRINT_F_FRAC_MAX;
+#else
+        return C13_UNKNOWN;
+#endif
+    case 2:
+#ifdef PRINT_F_EXP_MAX
+        return PRINT_F_EXP_MAX;
+#else
+        return C13_UNKNOWN;
+#endif
+    case 3:
+#ifdef PRINT_F_PREC_DEFAULT
+        return PRINT_F_PREC_DEFAULT;
+#else
+        return C13_UNKNOWN;
+#endif
+    case 4:
+#ifdef DOUBLE
+        return (long)sizeof(DOUBLE);
+#else
+        return C13_UNKNOWN;
+#endif
     case 5: return (long)sizeof(int); /* width, precision, pc, pad_count, zero_left, sign_count, len */
-    case 6: return OPS_FLAG_LEFT_ALIGN;
-    case 7: return OPS_FLAG_WITH_SIGN;
-    case 8: return OPS_FLAG_EXTRA_SPACE;
-    case 9: return OPS_FLAG_WITH_SPEC;
-    case 10: return OPS_FLAG_ZERO_PAD;
-    case 11: return OPS_PREC_IS_GIVEN;
-    case 12: return OPS_SPEC_UPPER_CASE;
-    case 13: return OPS_LEN_LONGFP;
+    case 6:
+#ifdef OPS_FLAG_LEFT_ALIGN
+        return OPS_FLAG_LEFT_ALIGN;
+#else
+        return C13_UNKNOWN;
+#endif
+    case 7:
+#ifdef OPS_FLAG_WITH_SIGN
+        return OPS_FLAG_WITH_SIGN;
+#else
+        return C13_UNKNOWN;
+#endif
+    case 8:
+#ifdef OPS_FLAG_EXTRA_SPACE
+        return OPS_FLAG_EXTRA_SPACE;
+#else
+        return C13_UNKNOWN;
+#endif
+    case 9:
+#ifdef OPS_FLAG_WITH_SPEC
+        return OPS_FLAG_WITH_SPEC;
+#else
+        return C13_UNKNOWN;
+#endif
+    case 10:
+#ifdef OPS_FLAG_ZERO_PAD
+        return OPS_FLAG_ZERO_PAD;
+#else
+        return C13_UNKNOWN;
+#endif
+    case 11:
+#ifdef OPS_PREC_IS_GIVEN
+        return OPS_PREC_IS_GIVEN;
+#else
+        return C13_UNKNOWN;
+#endif
+    case 12:
+#ifdef OPS_SPEC_UPPER_CASE
+        return OPS_SPEC_UPPER_CASE;
+#else
+        return C13_UNKNOWN;
+#endif
+    case 13:
+#ifdef OPS_LEN_LONGFP
+        return OPS_LEN_LONGFP;
+#else
+        return C13_UNKNOWN;
+#endif
     case 14: return (long)sizeof(long double);
-    case 15: return PRINT_I_BUFF_SZ;
+    case 15:
+#ifdef PRINT_I_BUFF_SZ
+        return PRINT_I_BUFF_SZ;
+#else
+        return C13_UNKNOWN;
+#endif
     }
-    return -1;
+    return C13_UNKNOWN;
 }
 
-int c13_print_f(void (*h)(void *, int), void *d, long double r, int width, int precision, unsigned int ops,
+static int c13_va_shim(void (*h)(void *, int), void *d, const char *fmt, ...)
+{
+    va_list ap;
+    va_start(ap, fmt);
+    int r = c13_twin_printf(h, d, fmt, ap);
+    va_end(ap);
+    return r;
+}
+
+/* `aops` is the flag word in the encoding of the OP LINE (the harness' own, fixed: 1 `-`, 2 `+`, 4 space, 8 `#`,
+   16 `0`, 32 precision given, 0x4000 upper case, 0x2000 `L`); it is translated into the bit values the library
+   uses today (its OPS_ macros, where they exist), so that renumbering the internal flag bits is harmless. */
+int c13_print_f(void (*h)(void *, int), void *d, long double r, int width, int precision, unsigned int aops,
                 int base, int with_exp, int is_shortened)
 {
-    return print_f(h, d, r, width, precision, ops, base, with_exp, is_shortened);
+    static const unsigned int abstract_bit[8] = {1, 2, 4, 8, 16, 32, 0x4000, 0x2000};
+    if (C13_HAVE_PRINT_F)
+    {
+        unsigned int ops = 0;
+        int complete = 1;
+        for (int i = 0; i < 8; i++)
+            if (aops & abstract_bit[i])
+            {
+                long v = c13_const(6 + i);
+                if (v == C13_UNKNOWN) complete = 0; else ops |= (unsigned int)v;
+            }
+        if (complete)
+            return ((c13_print_f_t *)(void *)print_f)(h, d, r, width, precision, ops, base, with_exp, is_shortened);
+    }
+    /* behavioural fallback: the same directive through the public entry */
+    {
+        char f[64], *p = f;
+        char conv = is_shortened ? 'g' : with_exp ? 'e' : 'f';
+        (void)base;
+        *p++ = '%';
+        if (aops & 1) *p++ = '-';
+        if (aops & 2) *p++ = '+';
+        if (aops & 4) *p++ = ' ';
+        if (aops & 8) *p++ = '#';
+        if (aops & 16) *p++ = '0';
+        if (width > 0) p += sprintf(p, "%d", width);
+        if (aops & 32) p += sprintf(p, ".%d", precision);
+        if (aops & 0x4000) conv = (char)(conv - 'a' + 'A');
+        if (aops & 0x2000)
+        {
+            *p++ = 'L';
+            *p++ = conv;
+            *p = 0;
+            return c13_va_shim(h, d, f, r);
+        }
+        *p++ = conv;
+        *p = 0;
+        return c13_va_shim(h, d, f, (double)r);
+    }
 }
